@@ -159,6 +159,21 @@ fn gen_value<T: Sem>(vs: &ValSpec, invalid_ok: bool) -> T {
     T::gen(&mut g)
 }
 
+pub fn show_values<T: Sem>(plan: &Plan) -> Vec<String> {
+    if plan.class == Class::Foreign {
+        return vec![];
+    }
+    plan.values
+        .iter()
+        .map(|vs| {
+            catch_unwind(AssertUnwindSafe(|| gen_value::<T>(vs, plan.invalid_ok).show())).unwrap_or_else(|_| {
+                let _ = take_panic();
+                "<generator panicked>".into()
+            })
+        })
+        .collect()
+}
+
 /// Offsets worth hitting inside a stream made of records with the given sizes.
 fn biased_offset(rng: &mut Rng, sizes: &[usize]) -> usize {
     let total: usize = sizes.iter().sum();
